@@ -876,7 +876,14 @@ def gen_case(rng, tier, ci, meanings=None, extra_tys=None, cap=None, defaults=No
                                 and rng.random() < 0.3]
         rng.shuffle(req)
         var["required"] = req
-        if rng.random() < 0.6:
+        opt_names = [f["name"] for f in var["fields"] if not (f.get("dflt") and f["dflt"]["v"] is not None)
+                     and (f.get("inOptional") or auto_optional(f["mode"], f["ty"]))]
+        if opt_names and rng.random() < 0.3:
+            # a name that is optional AND listed in `_required`: typedpy refuses the class ("optional cannot override prior
+            # required"); not an equivalent spelling of the reference - corresponded with the model only
+            var["required"] = req + [rng.choice(opt_names)]
+            var["undocumented"] = True
+        elif rng.random() < 0.6:
             var["fields"] = [{k: x for k, x in f.items() if k != "inOptional"} for f in var["fields"]]
     kws = []
     for _ in range(3):
@@ -1707,7 +1714,7 @@ def oracle(case, impl, model):
     ref = impl["variants"][0]
     ref_feats = field_features(case, model, 0)
     for i, (v, iv, mv) in enumerate(zip(case["variants"], impl["variants"], model["variants"])):
-        if not all(documented(f) for f in v["fields"]):
+        if not all(documented(f) for f in v["fields"]) or v.get("undocumented"):
             continue
         feats = field_features(case, model, i)
         srcs = (json.dumps([field_source(f)[0] for f in v["fields"]]) + (" [future]" if v["future"] else "")
